@@ -2156,12 +2156,16 @@ func (d *Data) ReceiveBlocks(ctx *datastore.VersionedCtx, r io.ReadCloser, scale
 	}
 	var numBlocks, pos int
 	hdrBytes := make([]byte, 16)
+	// An error that ends the stream does not end the bookkeeping: the blocks stored before it are
+	// indexed and down-sampled like those of a complete request, and the error is returned after that.
+	var streamErr error
 	for {
 		n, readErr := io.ReadFull(r, hdrBytes)
 		if n != 0 {
 			pos += n
 			if n != 16 {
-				return fmt.Errorf("error reading header bytes at byte %d: %v", pos, err)
+				streamErr = fmt.Errorf("error reading header bytes at byte %d: %v", pos, err)
+				break
 			}
 			bx := int32(binary.LittleEndian.Uint32(hdrBytes[0:4]))
 			by := int32(binary.LittleEndian.Uint32(hdrBytes[4:8]))
@@ -2174,7 +2178,8 @@ func (d *Data) ReceiveBlocks(ctx *datastore.VersionedCtx, r io.ReadCloser, scale
 			compressed, readErr = ioutil.ReadAll(io.LimitReader(r, int64(numBytes)))
 			n = len(compressed)
 			if n != numBytes || readErr != nil {
-				return fmt.Errorf("error reading %d bytes for block %s: %d read (%v)", numBytes, bcoord, n, readErr)
+				streamErr = fmt.Errorf("error reading %d bytes for block %s: %d read (%v)", numBytes, bcoord, n, readErr)
+				break
 			}
 
 			if scale == 0 {
@@ -2185,33 +2190,39 @@ func (d *Data) ReceiveBlocks(ctx *datastore.VersionedCtx, r io.ReadCloser, scale
 
 			serialization, err := dvid.SerializePrecompressedData(compressed, d.Compression(), d.Checksum())
 			if err != nil {
-				return fmt.Errorf("can't serialize received block %s data: %v", bcoord, err)
+				streamErr = fmt.Errorf("can't serialize received block %s data: %v", bcoord, err)
+				break
 			}
 			pos += n
 
 			gzipIn := bytes.NewBuffer(compressed)
 			zr, err := gzip.NewReader(gzipIn)
 			if err != nil {
-				return fmt.Errorf("can't initiate gzip reader: %v", err)
+				streamErr = fmt.Errorf("can't initiate gzip reader: %v", err)
+				break
 			}
 			uncompressed, err := ioutil.ReadAll(zr)
 			if err != nil {
-				return fmt.Errorf("can't read all %d bytes from gzipped block %s: %v", numBytes, bcoord, err)
+				streamErr = fmt.Errorf("can't read all %d bytes from gzipped block %s: %v", numBytes, bcoord, err)
+				break
 			}
 			if err := zr.Close(); err != nil {
-				return fmt.Errorf("error on closing gzip on block read of data %q: %v", d.DataName(), err)
+				streamErr = fmt.Errorf("error on closing gzip on block read of data %q: %v", d.DataName(), err)
+				break
 			}
 
 			var block labels.Block
 			if err = block.UnmarshalBinary(uncompressed); err != nil {
-				return fmt.Errorf("unable to deserialize label block %s: %v", bcoord, err)
+				streamErr = fmt.Errorf("unable to deserialize label block %s: %v", bcoord, err)
+				break
 			}
 			if scale == 0 {
 				go d.updateBlockMaxLabel(ctx.VersionID(), &block)
 			}
 
 			if err != nil {
-				return fmt.Errorf("Unable to deserialize %d bytes corresponding to block %s: %v", n, bcoord, err)
+				streamErr = fmt.Errorf("Unable to deserialize %d bytes corresponding to block %s: %v", n, bcoord, err)
+				break
 			}
 			wg.Add(1)
 			if putbuffer != nil {
@@ -2220,7 +2231,9 @@ func (d *Data) ReceiveBlocks(ctx *datastore.VersionedCtx, r io.ReadCloser, scale
 				putbuffer.PutCallback(ctx, tk, serialization, ready)
 			} else {
 				if err := store.Put(ctx, tk, serialization); err != nil {
-					return fmt.Errorf("Unable to PUT voxel data for block %s: %v", bcoord, err)
+					wg.Done()
+					streamErr = fmt.Errorf("Unable to PUT voxel data for block %s: %v", bcoord, err)
+					break
 				}
 				go callback(bcoord, &block, nil)
 			}
@@ -2230,7 +2243,8 @@ func (d *Data) ReceiveBlocks(ctx *datastore.VersionedCtx, r io.ReadCloser, scale
 			break
 		}
 		if readErr != nil {
-			return fmt.Errorf("error reading block header at byte %d: %v", pos, readErr)
+			streamErr = fmt.Errorf("error reading block header at byte %d: %v", pos, readErr)
+			break
 		}
 	}
 
@@ -2251,6 +2265,9 @@ func (d *Data) ReceiveBlocks(ctx *datastore.VersionedCtx, r io.ReadCloser, scale
 		if err := downresMut.Execute(); err != nil {
 			return err
 		}
+	}
+	if streamErr != nil {
+		return streamErr
 	}
 	timedLog.Infof("Received and stored %d blocks for labelarray %q", numBlocks, d.DataName())
 	return nil
